@@ -32,7 +32,7 @@ WEIGHTS = {"rand": 2.5, "fuse": 6, "fuse_pair": 6, "unfuse": 4, "meta_to_hard": 
 
 
 def budget(tier):
-    return 1500 if tier == "quick" else 40000
+    return 4000 if tier == "quick" else 60000
 
 
 def _generating():
@@ -231,7 +231,9 @@ def on_exception(w, task, rec, exc):
 
 
 def run_seed(seed, tier):
-    case = e1prop.build(seed, tier, PROP, WEIGHTS)
+    u = core.stream(seed, "universe-shape")
+    ukw = {"uniform_D": u.choice([1, 2, 2, 3]), "maxsec": 4} if u.random() < 0.35 else None     # sectors of equal dimension: histories differing in charges only
+    case = e1prop.build(seed, tier, PROP, WEIGHTS, universe_kw=ukw)
     v, w, info = e1prop.simulate(case, True, after_op, on_exception)
     r = e1prop.result(case, v, w, info, seed)
     r["nontrivial"] = bool(r["nontrivial"] and w.stats.get("ops_on_fused", 0) > 0)
